@@ -51,6 +51,7 @@ def draw_cfg(st):
         # op mixes: balanced, serialize-heavy, reset-heavy, reset-vs-write only, flush-vs-traceback-write
         cfg["w"] = [[6, 3, 2, 2, 0, 1, 1], [6, 4, 2, 1, 2, 1, 0], [8, 2, 1, 0, 0, 0, 3],
                     [4, 2, 2, 0, 0, 0, 5], [1, 1, 6, 0, 0, 5, 1]][st.choose(5, "mix")]
+        cfg["w_poke"] = [0, 2, 4][st.choose(3, "w_poke")]
     else:
         cfg["text"] = bool(st.choose(2, "text"))
         cfg["p_io_error"] = [0.0, 0.0, 0.15][st.choose(3, "p_io")]
@@ -81,7 +82,14 @@ def gen_ops(st, cfg):
                 w[4] = 0
             if validated:
                 w[3] = 0          # same reason: validate at most once per run
+            # a call that fails inside the logger (serialize() over a message without serializer,
+            # flush_tracebacks of something that is no class): it changes nothing -- and whatever the logger
+            # does to protect its lists must be undone on that path too
+            w = w + [0 if cfg["use_serialize"] else cfg.get("w_poke", 0)]
             k = st.weighted(w, "op")
+            if k == 7:
+                ops.append(["poke", st.choose(2, "poke-kind")])
+                continue
             if k in (0, 1, 2):
                 nid += 1
                 if k == 1 and cfg.get("second_logger") and st.choose(3, "nested") == 2:
@@ -193,6 +201,17 @@ def run_memory(rc, cfg, actors_ops):
                         h["result"] = logger.flush_tracebacks(cls)
                     elif k == "reset":
                         logger.reset()
+                    elif k == "poke":
+                        rc.probe("failing_logger_call")
+                        try:
+                            if op[1] == 0:
+                                logger.serialize()
+                            else:
+                                logger.flush_tracebacks(42)
+                        except SimAbort:
+                            raise
+                        except Exception:  # noqa
+                            h["failed"] = True
                 except SimAbort:
                     raise
                 except BaseException as ex:  # noqa
